@@ -151,9 +151,44 @@ struct QC6 : CfgCommon
 	static void queued(const Q::QueuedEvent & e, ArgPack & p) { if(e.event != std::get<0>(e.arguments).type) p.push(-99); p.push(fpOf(std::get<0>(e.arguments))); }
 	static int key(int k) { return KI(k); }
 };
+// exclude-event form with a getEvent policy that is not the identity on the first argument
+struct PolGetEventMaskQ { static int getEvent(int id, const TPayload &, int) { return id & 0xff; } typedef eventpp::ArgumentPassingExcludeEvent ArgumentPassingMode; typedef eventpp::SingleThreading Threading; };
+static int KM(int k) { return 1 + k * 3; }
+struct QC7 : CfgCommon
+{
+	enum { hasWait = 0 };
+	typedef eventpp::EventQueue<int, void(const TPayload &, int), PolGetEventMaskQ> Q;
+	static const char * name() { return "EventQueue<int,void(const TPayload&,int)> exclude-event form, getEvent policy masks the id"; }
+	static void enqueue(Q & q, int k, int eid, int val, uint32_t form) {
+		const int raw = KM(k) | ((1 + (eid % 3)) << 8);
+		if(form % 2 == 0) { TPayload p(eid); int kk = raw; q.enqueue(kk, p, val); }
+		else q.enqueue(int(raw), TPayload(eid), int(val));
+	}
+	static void expect(ArgPack & p, int, int eid, int val) { p.push(eid); p.push(val); }
+	static void dispatch(Q & q, int k, int eid, int val) { TPayload p(eid); q.dispatch(KM(k) | 0x500, p, val); }
+	static void queued(const Q::QueuedEvent & e, ArgPack & p) { p.push(e.event); p.push(fpOf(std::get<0>(e.arguments))); p.push(std::get<1>(e.arguments)); }
+	static int key(int k) { return KM(k); }
+};
+// getEvent policy taking its (movable) argument BY VALUE, events enqueued from temporaries
+struct PolGetEventByValueQ { static std::string getEvent(std::string name, const TPayload &) { return name; } };
+struct QC8 : CfgCommon
+{
+	typedef eventpp::EventQueue<std::string, void(std::string, TPayload), PolGetEventByValueQ> Q;
+	static const char * name() { return "EventQueue<std::string,void(std::string,TPayload)> getEvent takes the key by value, temporaries enqueued"; }
+	static void enqueue(Q & q, int k, int eid, int, uint32_t form) {
+		if(form % 3 == 0) { std::string kk = KS(k); TPayload p(eid); q.enqueue(kk, p); }
+		else if(form % 3 == 1) q.enqueue(KS(k), TPayload(eid));
+		else { std::string kk = KS(k); q.enqueue(std::move(kk), TPayload(eid)); }
+	}
+	static void expect(ArgPack & p, int k, int eid, int) { p.push(fpOf(KS(k))); p.push(eid); }
+	static void dispatch(Q & q, int k, int eid, int) { TPayload p(eid); q.dispatch(KS(k), p); }
+	static void queued(const Q::QueuedEvent & e, ArgPack & p) { if(e.event != std::get<0>(e.arguments)) p.push(-99); p.push(fpOf(std::get<0>(e.arguments))); p.push(fpOf(std::get<1>(e.arguments))); }
+	static std::string key(int k) { return KS(k); }
+};
 // what queued() must produce for an event
 template <typename Cfg> inline void expectQueued(ArgPack & p, int k, int eid, int val) { Cfg::expect(p, k, eid, val); }
 template <> inline void expectQueued<QC5>(ArgPack & p, int k, int eid, int val) { p.push(KI(k)); p.push(eid); p.push(val); }
+template <> inline void expectQueued<QC7>(ArgPack & p, int k, int eid, int val) { p.push(KM(k)); p.push(eid); p.push(val); }
 
 // ------------------------------------------------------------------ model
 enum EvState { ES_PENDING, ES_INBATCH, ES_DISPATCHED, ES_TAKEN, ES_CLEARED, ES_DESTROYED, ES_DIRECT };
@@ -861,9 +896,9 @@ template <bool Enabled, typename Cfg>
 static typename std::enable_if<! Enabled>::type runCfgIf(const QMode &, Rng &, uint64_t, int) {}
 static void skipCase() { --ctx().casesRun; }
 
-enum { NCFG = 7 };
+enum { NCFG = 9 };
 #ifndef VF_CFG_MASK
-#define VF_CFG_MASK 0x7f
+#define VF_CFG_MASK 0x37f
 #endif
 // C20: the same program under a family that differs only in policies.  hasWait = 0 for every member so that the
 // generated operations are the same (waitFor does not compile for the single-threaded and SpinLock policies).
@@ -916,6 +951,8 @@ static void runCase(uint64_t caseNo, Rng & rng)
 #define VF_CFG(n) case n: if((VF_CFG_MASK >> n) & 1) { runCfgIf<((VF_CFG_MASK >> n) & 1) != 0, QC##n>(mode, rng, caseNo, n); } else { skipCase(); } break;
 	switch(cfg) {
 	VF_CFG(0) VF_CFG(1) VF_CFG(2) VF_CFG(3) VF_CFG(4) VF_CFG(5) VF_CFG(6)
+	case 7: if((VF_CFG_MASK >> 8) & 1) { runCfgIf<((VF_CFG_MASK >> 8) & 1) != 0, QC7>(mode, rng, caseNo, 7); } else { skipCase(); } break; // bit 7 is the C20 family
+	case 8: if((VF_CFG_MASK >> 9) & 1) { runCfgIf<((VF_CFG_MASK >> 9) & 1) != 0, QC8>(mode, rng, caseNo, 8); } else { skipCase(); } break;
 	default: skipCase(); break;
 	}
 }
